@@ -115,38 +115,38 @@ Proof.
 Qed.
 
 (* ------------------------------------------------------------------ record updates, as equations *)
-Lemma sif_major : forall v z, set_int_field v n_major z =
-  mkv (v_year_y v) (v_year_g v) (v_quarter v) (v_month v) (v_dom v) (v_doy v) (v_week_w v) (v_week_u v) (v_week_v v)
-      z (v_minor v) (v_patch v) (v_bid v) (v_tag v) (v_pytag v) (v_githash v) (v_hexhash v) (v_num v) (v_inc0 v) (v_inc1 v).
-Proof. intros [] z. reflexivity. Qed.
-Lemma sif_minor : forall v z, set_int_field v n_minor z =
-  mkv (v_year_y v) (v_year_g v) (v_quarter v) (v_month v) (v_dom v) (v_doy v) (v_week_w v) (v_week_u v) (v_week_v v)
-      (v_major v) z (v_patch v) (v_bid v) (v_tag v) (v_pytag v) (v_githash v) (v_hexhash v) (v_num v) (v_inc0 v) (v_inc1 v).
-Proof. intros [] z. reflexivity. Qed.
-Lemma sif_patch : forall v z, set_int_field v n_patch z =
-  mkv (v_year_y v) (v_year_g v) (v_quarter v) (v_month v) (v_dom v) (v_doy v) (v_week_w v) (v_week_u v) (v_week_v v)
-      (v_major v) (v_minor v) z (v_bid v) (v_tag v) (v_pytag v) (v_githash v) (v_hexhash v) (v_num v) (v_inc0 v) (v_inc1 v).
-Proof. intros [] z. reflexivity. Qed.
-Lemma sif_num : forall v z, set_int_field v n_num z =
-  mkv (v_year_y v) (v_year_g v) (v_quarter v) (v_month v) (v_dom v) (v_doy v) (v_week_w v) (v_week_u v) (v_week_v v)
-      (v_major v) (v_minor v) (v_patch v) (v_bid v) (v_tag v) (v_pytag v) (v_githash v) (v_hexhash v) z (v_inc0 v) (v_inc1 v).
-Proof. intros [] z. reflexivity. Qed.
-Lemma sif_inc0 : forall v z, set_int_field v n_inc0 z =
-  mkv (v_year_y v) (v_year_g v) (v_quarter v) (v_month v) (v_dom v) (v_doy v) (v_week_w v) (v_week_u v) (v_week_v v)
-      (v_major v) (v_minor v) (v_patch v) (v_bid v) (v_tag v) (v_pytag v) (v_githash v) (v_hexhash v) (v_num v) z (v_inc1 v).
-Proof. intros [] z. reflexivity. Qed.
-Lemma sif_inc1 : forall v z, set_int_field v n_inc1 z =
-  mkv (v_year_y v) (v_year_g v) (v_quarter v) (v_month v) (v_dom v) (v_doy v) (v_week_w v) (v_week_u v) (v_week_v v)
-      (v_major v) (v_minor v) (v_patch v) (v_bid v) (v_tag v) (v_pytag v) (v_githash v) (v_hexhash v) (v_num v) (v_inc0 v) z.
-Proof. intros [] z. reflexivity. Qed.
-Lemma with_tag_eq : forall v t p, with_tag v t p =
-  mkv (v_year_y v) (v_year_g v) (v_quarter v) (v_month v) (v_dom v) (v_doy v) (v_week_w v) (v_week_u v) (v_week_v v)
-      (v_major v) (v_minor v) (v_patch v) (v_bid v) t p (v_githash v) (v_hexhash v) (v_num v) (v_inc0 v) (v_inc1 v).
-Proof. intros [] t p. reflexivity. Qed.
-Lemma with_bid_eq : forall v b, with_bid v b =
-  mkv (v_year_y v) (v_year_g v) (v_quarter v) (v_month v) (v_dom v) (v_doy v) (v_week_w v) (v_week_u v) (v_week_v v)
-      (v_major v) (v_minor v) (v_patch v) b (v_tag v) (v_pytag v) (v_githash v) (v_hexhash v) (v_num v) (v_inc0 v) (v_inc1 v).
-Proof. intros [] b. reflexivity. Qed.
+Lemma sif_major : forall a b c d e g h i j ma mi pa bid tag pytag gh hh num i0 i1 z,
+  set_int_field (mkv a b c d e g h i j ma mi pa bid tag pytag gh hh num i0 i1) n_major z =
+  mkv a b c d e g h i j z mi pa bid tag pytag gh hh num i0 i1.
+Proof. reflexivity. Qed.
+Lemma sif_minor : forall a b c d e g h i j ma mi pa bid tag pytag gh hh num i0 i1 z,
+  set_int_field (mkv a b c d e g h i j ma mi pa bid tag pytag gh hh num i0 i1) n_minor z =
+  mkv a b c d e g h i j ma z pa bid tag pytag gh hh num i0 i1.
+Proof. reflexivity. Qed.
+Lemma sif_patch : forall a b c d e g h i j ma mi pa bid tag pytag gh hh num i0 i1 z,
+  set_int_field (mkv a b c d e g h i j ma mi pa bid tag pytag gh hh num i0 i1) n_patch z =
+  mkv a b c d e g h i j ma mi z bid tag pytag gh hh num i0 i1.
+Proof. reflexivity. Qed.
+Lemma sif_num : forall a b c d e g h i j ma mi pa bid tag pytag gh hh num i0 i1 z,
+  set_int_field (mkv a b c d e g h i j ma mi pa bid tag pytag gh hh num i0 i1) n_num z =
+  mkv a b c d e g h i j ma mi pa bid tag pytag gh hh z i0 i1.
+Proof. reflexivity. Qed.
+Lemma sif_inc0 : forall a b c d e g h i j ma mi pa bid tag pytag gh hh num i0 i1 z,
+  set_int_field (mkv a b c d e g h i j ma mi pa bid tag pytag gh hh num i0 i1) n_inc0 z =
+  mkv a b c d e g h i j ma mi pa bid tag pytag gh hh num z i1.
+Proof. reflexivity. Qed.
+Lemma sif_inc1 : forall a b c d e g h i j ma mi pa bid tag pytag gh hh num i0 i1 z,
+  set_int_field (mkv a b c d e g h i j ma mi pa bid tag pytag gh hh num i0 i1) n_inc1 z =
+  mkv a b c d e g h i j ma mi pa bid tag pytag gh hh num i0 z.
+Proof. reflexivity. Qed.
+Lemma with_tag_eq : forall a b c d e g h i j ma mi pa bid tag pytag gh hh num i0 i1 t p,
+  with_tag (mkv a b c d e g h i j ma mi pa bid tag pytag gh hh num i0 i1) t p =
+  mkv a b c d e g h i j ma mi pa bid t p gh hh num i0 i1.
+Proof. reflexivity. Qed.
+Lemma with_bid_eq : forall a b c d e g h i j ma mi pa bid tag pytag gh hh num i0 i1 b',
+  with_bid (mkv a b c d e g h i j ma mi pa bid tag pytag gh hh num i0 i1) b' =
+  mkv a b c d e g h i j ma mi pa b' tag pytag gh hh num i0 i1.
+Proof. reflexivity. Qed.
 
 Ltac proj := cbn [v_year_y v_year_g v_quarter v_month v_dom v_doy v_week_w v_week_u v_week_v v_major v_minor v_patch
                   v_bid v_tag v_pytag v_githash v_hexhash v_num v_inc0 v_inc1].
@@ -214,13 +214,14 @@ Theorem bumped_fields : forall cur fl c, bumped cur fl = Some c ->
   /\ v_githash c = v_githash cur /\ v_hexhash c = v_hexhash cur.
 Proof.
   intros cur fl c. unfold bumped. cbv zeta.
+  destruct cur as [a b c' d e g h i j ma mi pa bid tag pytag gh hh num i0 i1].
   destruct fl as [fm fi fp ft ftn fpi fpd]. cbn [f_major f_minor f_patch f_tag f_tag_num f_pin_increments f_pin_date].
   destruct fm, fi, fp, ftn, fpi; upd;
     (destruct ft as [[|x t]|];
-     [ | destruct (eqb_str (x :: t) (v_tag cur)) eqn:HE; cbn [negb]; upd;
+     [ | destruct (eqb_str (x :: t) tag) eqn:HE; cbn [negb]; upd;
          (destruct (assoc (x :: t) PEP440_TAG_BY_TAG) as [py|] eqn:HA; [|intros H; discriminate H]) | ];
      upd;
-     (destruct (bump_bid (v_bid cur)) as [b|] eqn:HB; [|intros H; discriminate H]);
+     (destruct (bump_bid bid) as [b'|] eqn:HB; [|intros H; discriminate H]);
      intros H; injection H as H; subst c; unfold cal_list; proj;
      repeat split; reflexivity).
 Qed.
